@@ -105,6 +105,20 @@ func genC09(t *rapid.T) *C09Case {
 			c.File.Tops = append(c.File.Tops, &Top{K: "text", Text: ts})
 		}
 	}
+	// a constant whose name is also the whole content of some text: text content is never substituted
+	if rapid.IntRange(0, 3).Draw(t, "constname") == 0 {
+		c.File.Tops = append([]*Top{{K: "const", Const: &Const{Name: "KONST", Val: []string{"7"}}}}, c.File.Tops...)
+		for _, s := range sc.Body.Stmts {
+			if rapid.Bool().Draw(t, "useconstname") {
+				s.Cmd.Args[0].Text = &TextVal{Lit: &StrLit{Parts: []string{"KONST"}}}
+			}
+		}
+		for _, tp := range c.File.Tops {
+			if tp.K == "text" && tp.Text.Val != nil && rapid.IntRange(0, 2).Draw(t, "useconstname2") == 0 {
+				tp.Text.Val = &TextVal{Lit: &StrLit{Parts: []string{"KONST"}}}
+			}
+		}
+	}
 	if len(sc.Body.Stmts) > 0 {
 		pos := rapid.IntRange(0, len(c.File.Tops)).Draw(t, "scriptpos")
 		c.File.Tops = append(c.File.Tops[:pos], append([]*Top{{K: "script", Script: sc}}, c.File.Tops[pos:]...)...)
